@@ -41,6 +41,8 @@ CONSTANTS
                \* random simulation spreads them uniformly over the calls; FALSE: any call may fail
   MaxPlan,     \* largest planned position
   InitStores,  \* set of initial ledgers (each a function Rev -> record)
+  LateStart,   \* TRUE (concurrency generators): processes other than 1 begin only after process 1 has made a
+               \* number of calls drawn at Init, so that simulation also samples late arrivals
   LogSched,    \* TRUE: hist also records which process took every step (schedule export, C09)
   KeepLog      \* TRUE: keep the per-operation call log (needed by the ordering properties)
 
@@ -589,7 +591,10 @@ I_ReplHist(p) ==
                ELSE IF Last = MaxRev THEN Done(o, "err")
                ELSE IF store[Last].st = "failed"      \* "do not change the status of a failed release" (L1)
                     THEN [pc |-> "I_Create", op |-> [o EXCEPT !.new = Last + 1]]
-                    ELSE [pc |-> "I_ReplUpdate", op |-> [o EXCEPT !.new = Last + 1, !.orig = Last]])
+                    \* (the name check ran on an earlier read: by now the last revision may be the pending record
+                    \* of an install running in another process, and replaceRelease supersedes it - finding L24)
+                    ELSE [pc |-> "I_ReplUpdate", op |-> [o EXCEPT !.new = Last + 1, !.orig = Last,
+                                                          !.kf = IF IsPending(store[Last].st) THEN @ \cup {"L24"} ELSE @]])
 
 I_ReplUpdate(p) ==
   /\ pc[p] = "I_ReplUpdate" /\ Budgets
@@ -885,6 +890,7 @@ BeginT(m) ==
 BeginWith(p, m) ==
   /\ pc[p] = "idle" /\ nops[p] < MaxOps
   /\ Sequential => Idle
+  /\ (LateStart /\ p # 1) => (op[1].n >= hist[1].late \/ (pc[1] = "idle" /\ nops[1] > 0))
   /\ \E pl \in (IF Planned /\ nfaults < MaxFaults THEN 0..MaxPlan ELSE {0}),
         cp \in (IF Planned /\ ncrash < MaxCrash THEN 0..MaxPlan ELSE {0}) :
      LET t == Resolve(BeginT(m)) IN
@@ -965,7 +971,8 @@ Init ==
   /\ nfaults = 0 /\ ncrash = 0 /\ nedits = 0
   /\ last = Lab(0, "init", "", "", "", TRUE, FALSE)
   /\ pre = [p \in Procs |-> [store |-> <<>>, cluster |-> <<>>]]
-  /\ hist = <<[step |-> "init", cluster |-> cluster, store |-> [r \in Rev |-> store[r].ch]]>>
+  /\ \E k \in (IF LateStart THEN 0..(2 * MaxPlan) ELSE {0}) :
+       hist = <<[step |-> "init", cluster |-> cluster, store |-> [r \in Rev |-> store[r].ch], late |-> k]>>
   /\ kfg = {}
 
 Spec == Init /\ [][Next]_vars
